@@ -595,9 +595,25 @@ def _script(spec, vals, form, bname, exp):
 # ---------------------------------------------------------------------------
 # alphabets
 # ---------------------------------------------------------------------------
+# DESIGN's operand alphabet V.  C14 keeps its OWN copy of these definitions (they started out shared with the C16 helper):
+# every cross product of this driver is sized for exactly this alphabet, and the thorough tier enumerates EVERY bit size
+# separately (BITS_TOP below) instead of adding more boundary sizes to V.
+KS_FULL = (7, 8, 31, 32, 63, 64, 65, 127, 128, 255, 256, 521, 1024, 2048)
+KS_QUICK = (8, 31, 32, 63, 64, 65, 128, 1024)
+BLOCK_SIZES = (0, 1, 2, 7, 8, 9, 16, 17, 32, 33, 64, 65, 66, 128, 129, 256, 257, 258, 300)
+SMALL_PRIMES = [p for p in range(2, 200) if all(p % q for q in range(2, int(p ** 0.5) + 1))]
+CORE_WORDS = {True: (1, 2, 17), False: (1, 2, 3, 4, 8, 16, 17, 32, 33)}
+
+
 def alphabet(quick):
-    """DESIGN's V (shared with C16) plus the 2^16 boundary used by the *_ui fast paths of the GMP wrapper"""
-    v = list(I.alphabet(quick))
+    """DESIGN's V plus the 2^16 boundary used by the *_ui fast paths of the GMP wrapper"""
+    v = [0, 1, -1, 2, -2]
+    for k in (KS_QUICK if quick else KS_FULL):
+        for x in (2 ** k - 1, 2 ** k, 2 ** k + 1):
+            v += [x, -x]
+    for bits in ((300,) if quick else (300, 1100, 2100)):
+        x = seeded_int("c16int%d" % bits, bits) | (1 << (bits - 1))
+        v += [x, -x]
     for x in (2 ** 16 - 2, 2 ** 16 - 1, 2 ** 16, 2 ** 16 + 1):
         v += [x, -x]
     return v
@@ -628,12 +644,15 @@ def moduli_all(quick):
 
 
 def moduli_core(quick):
-    """the C16 list (1, 2, 17 / 1..33 words by powers) plus the curve primes"""
-    return list(I.moduli(quick)) + [p for _, p in CURVE_PRIMES]
+    """odd, even and 1 at 1, 2, 17 / 1..33 words by powers (all-ones, all-ones even, sparse odd, power of two), plus the
+    curve primes"""
+    m = [1, 2, 3, 4, 0, -1, -3]
+    for w in CORE_WORDS[quick]:
+        m += [2 ** (64 * w) - 1, 2 ** (64 * w) - 2, 2 ** (64 * w - 1) + 1, 2 ** (64 * w - 1)]
+    return m + [p for _, p in CURVE_PRIMES]
 
 
 SHIFTS = (0, 1, 31, 32, 33, 63, 64, 65, 4096, 65535, 65536, 65537, 2 ** 31, 2 ** 32, 2 ** 64, -1)
-BLOCK_SIZES = I.BLOCK_SIZES
 HUGE = (2 ** 65537, 2 ** 70000, 2 ** 70000 - 1, -(2 ** 70000), 2 ** 65536, 2 ** 65536 - 1)
 
 BIN_OPS = ("add", "sub", "mul", "floordiv", "mod", "and", "or", "eq", "ne", "lt", "le", "gt", "ge",
@@ -642,7 +661,82 @@ BIN_OPS = ("add", "sub", "mul", "floordiv", "mod", "and", "or", "eq", "ne", "lt"
 UN_OPS = ("int", "str", "bool", "index", "hex", "abs", "is_negative", "is_odd", "is_even", "is_perfect_square",
           "copy", "size_in_bits", "size_in_bytes", "sqrt", "to_bytes0")
 SHIFT_OPS = ("rshift", "irshift", "lshift", "ilshift", "get_bit")
-SMALL_R = {True: 16, False: 40}
+SMALL_R = {True: 16, False: 80}
+
+# ---- dimensions enumerated by the THOROUGH tier only ---------------------------------------------------------------
+BITS_TOP = 4160             # every operand bit size 1..4160 (65 words): unary operations, conversions, size-relative shifts
+BITS_SQRT_TOP = 2200        # sqrt / is_perfect_square: every size up to here, above it 64w-1, 64w, 64w+1 only
+BITS_BIN_TOP = 320          # every bit size up to here (and the sizes 64w-1, 64w, 64w+1 of every word count w <= 65) is
+                            # also crossed with every binary operator against the partner set
+MODBITS_TOP = 640           # every modulus bit length 2..640: every byte length 1..80 x every position of the top bit
+WORDS_BIG = (34, 35, 36, 40, 47, 48, 49, 63, 64, 65, 96, 127, 128, 129)     # word counts beyond WORDS_FULL
+EXP_SWEEP_TOP = 4096        # every exponent 0..4095 = every triple of 4-bit window digits of monty_pow (WINDOW_SIZE 4)
+EXPLEN_TOP = 48             # every (exponent byte length, modulus byte length) pair of 1..48 x 1..48
+LIMB_WORDS = 16             # single-limb operand patterns at every pair of limb positions for every word count 1..16
+SHIFT_BOX = 200             # every shift count / bit index -1..200
+SQRT_BOX_TOP = 400          # modular square roots: all residues modulo EVERY modulus -2..400
+TWO_ADICITY_TOP = 64        # Tonelli-Shanks: primes c * 2^s + 1 of every 2-adicity s = 1..64
+SQRT_BITS_TOP = 256         # ... and primes of every bit size 3..256 in every residue class mod 8
+BOX = {                     # complete small-scope boxes: (quick, thorough)
+    "pow3-b": (range(-6, 13), range(-8, 25)), "pow3-e": (range(-1, 13), range(-1, 18)),
+    "pow3-m": (range(-1, 26), range(-1, 81)), "jacobi-n": (range(-3, 100), range(-3, 400)),
+    "jacobi-a": (range(-60, 61), range(-100, 101)), "inverse-m": (range(-3, 40), range(-3, 200)),
+    "inverse-a": (range(-45, 46), range(-100, 101)),
+}
+
+
+def _dedupe(seq):
+    out = []
+    for x in seq:
+        if x not in out:
+            out.append(x)
+    return out
+
+
+def word_moduli_extra(w, label="c14modx"):
+    """further limb patterns of exactly w words (thorough): low limb 1 under all-ones limbs (m0 = -1 mod 2^64), top limb 1
+    over all-ones limbs (barely w words), all-ones top and bottom limbs around zero limbs, an even modulus whose low limb
+    is zero, a seeded odd modulus with an 8-bit top limb (byte length not a multiple of 8)"""
+    top = 2 ** (64 * w)
+    hi = 64 * (w - 1)
+    sd = seeded_int("%s%d" % (label, w), hi + 8) | 1 | (1 << (hi + 7))
+    cand = [top - 2 ** 64 + 1 if w > 1 else 2 ** 64 - 2 ** 32 + 1, 2 ** (hi + 1) - 1,
+            ((2 ** 64 - 1) << hi) | (2 ** 64 - 1), top - 2 ** 64 if w > 1 else 2 ** 64 - 2 ** 32, sd]
+    base = word_moduli(w)
+    return [m for m in _dedupe(cand) if m > 4 and m not in base]
+
+
+def bits_bin_sizes():
+    ks = list(range(1, BITS_BIN_TOP + 1))
+    for w in range(1, BITS_TOP // 64 + 1):
+        ks += [64 * w - 1, 64 * w, 64 * w + 1]
+    return sorted(set(k for k in ks if k <= BITS_TOP))
+
+
+def exp_sweep_moduli():
+    m = [3, 2 ** 64 - 59, 2 ** 64, 2 ** 128 - 2]
+    for w in (1, 2, 3, 4, 5, 8, 9, 16, 17):
+        m.append(seeded_int("c14expm%d" % w, 64 * w) | 1 | (1 << (64 * w - 1)))
+    return m + [p for _, p in CURVE_PRIMES]
+
+
+def proth_prime(s):
+    """the smallest prime c * 2^s + 1 with c odd: a prime of 2-adicity exactly s"""
+    c = 1
+    while not _is_prime(c * 2 ** s + 1):
+        c += 2
+    return c * 2 ** s + 1
+
+
+def prime_in_class(nb, r):
+    """the smallest prime p >= 2^(nb-1) with p = r (mod 8), or None when it would need more than nb bits"""
+    p = 2 ** (nb - 1)
+    p += (r - p) % 8
+    while p < 2 ** nb:
+        if _is_prime(p):
+            return p
+        p += 8
+    return None
 
 
 def _forms(a, b):
@@ -655,25 +749,47 @@ def _forms(a, b):
 def int_shards(quick):
     nV = len(alphabet(quick))
     R = SMALL_R[quick]
-    sh = [("pow3-wide", i, 12) for i in range(12)]
+    sh = [("pow3-wide", i, 12 if quick else 24) for i in range(12 if quick else 24)]
     sh += [("pow3-all", i) for i in range(nV)]
     sh += [("bin", i) for i in range(nV)]
     sh += [("mmb", i) for i in range(nV)]
     sh += [("small-bin", a) for a in range(-R, R + 1)]
-    sh += [("unary",), ("shift", 0), ("shift", 1), ("shift", 2), ("shift", 3), ("conv",), ("pow2",),
-           ("pow3-small", 0), ("pow3-small", 1), ("pow3-small", 2), ("pow3-small", 3), ("huge",), ("jacobi-small",),
-           ("inverse-small",)]
-    sh += [("sqrt-small", i, 8) for i in range(8)]
+    nb = 4 if quick else 8              # the small boxes are wider in thorough: more shards of the old size
+    sh += [("unary",), ("shift", 0), ("shift", 1), ("shift", 2), ("shift", 3), ("conv",), ("pow2",), ("huge",)]
+    sh += [("pow3-small", i, nb) for i in range(nb)]
+    sh += [("jacobi-small", i, 1 if quick else 6) for i in range(1 if quick else 6)]
+    sh += [("inverse-small", i, 1 if quick else 6) for i in range(1 if quick else 6)]
+    sh += [("sqrt-small", i, 8) for i in range(8)] if quick else [("sqrt-small", i, 24) for i in range(24)]
     sh = [("sqrt-curve", i, j, 6) for i in range(len(CURVE_PRIMES)) for j in range(6)
           if CURVE_PRIMES[i][1] % 8 == 1] + sh          # p224 (2-adicity 96: the long Tonelli-Shanks loop) first
     sh += [("sqrt-curve", i, 0, 1) for i in range(len(CURVE_PRIMES)) if CURVE_PRIMES[i][1] % 8 != 1]
-    top = 2 ** 13 if quick else 2 ** 16
+    top = 2 ** 13 if quick else 2 ** 17
     sh += [("isqrt-range", a, a + 1024) for a in range(0, top, 1024)]
     # neighbours of perfect squares of EVERY size (k = 2^m + j and k = floor(sqrt(2) 2^m) + j): integer square roots
     # computed through floating point go wrong first around 2^52..2^53, between the sizes of the operand alphabet
     mtop = 140 if quick else 1100
     sh += [("sqrt-neighbours", a, min(a + 20, mtop)) for a in range(1, mtop, 20)]
+    if not quick:
+        sh = deep_shards() + sh
     return [("int",) + s + (quick,) for s in sh]
+
+
+def deep_shards():
+    """the dimensions only the thorough tier enumerates (heaviest first; sweeps are interleaved so that the shards of
+    one kind cost the same)"""
+    sh = [("words-big", w, i, 4) for w in sorted(WORDS_BIG, reverse=True) for i in range(4)]
+    sh += [("bits-bin", i, 48) for i in range(48)]
+    sh += [("bits", i, 63) for i in range(63)]
+    sh += [("modbits", i, 40) for i in range(40)]
+    sh += [("patterns", w) for w in sorted(WORDS_FULL, reverse=True)]
+    sh += [("exp-sweep", i) for i in range(len(exp_sweep_moduli()))]
+    sh += [("limbs", w) for w in range(LIMB_WORDS, 0, -1)]
+    sh += [("curve-limbs", i) for i in range(len(CURVE_PRIMES))]
+    sh += [("explen", i, 8) for i in range(8)]
+    sh += [("sqrt-bits", i, 8) for i in range(8)]
+    sh += [("shift-box", i, 4) for i in range(4)]
+    sh += [("conv-sweep",)]
+    return sh
 
 
 def int_worker(sh, acc):
@@ -773,11 +889,12 @@ def int_worker(sh, acc):
                     int_case("ipow2", (a, e), form, acc)
     elif kind == "pow3-small":
         # small scope, complete: every base, exponent and modulus in a box (Montgomery code on tiny moduli)
-        for b in range(-6, 13):
-            if (b + 6) % 4 != sh[1]:
+        bq = 0 if quick else 1
+        for b in BOX["pow3-b"][bq]:
+            if (b - BOX["pow3-b"][bq][0]) % sh[2] != sh[1]:
                 continue
-            for e in range(-1, 13):
-                for m in range(-1, 41 if not quick else 26):
+            for e in BOX["pow3-e"][bq]:
+                for m in BOX["pow3-m"][bq]:
                     for form in ("I", "i"):
                         int_case("pow3", (b, e, m), form, acc)
                     int_case("ipow3", (b, e, m), "I", acc)
@@ -808,8 +925,8 @@ def int_worker(sh, acc):
         cases = []
         for m in M:
             for e in E:
-                big_e = e.bit_length() > (130 if quick else 600)
-                if big_e and (quick or m.bit_length() > 1100) and not abs(m) < 5:
+                big_e = e.bit_length() > 130
+                if big_e and quick and not abs(m) < 5:          # (thorough: no cost restriction any more)
                     acc.count("int_pow_skipped_cost")
                     continue
                 for b in B0:
@@ -842,7 +959,10 @@ def int_worker(sh, acc):
                 for t in (m - 1, m - 2, (m + 1) // 2):
                     int_case("_mult_modulo_bytes", (t, t, m), "I", acc)
     elif kind == "sqrt-small":
-        mods = [p for p in I.SMALL_PRIMES if p < 200] + [9, 15, 21, 25, 27, 33, 35, 49, 91, 121, 4, 6, 8, 16, 1, 0, -7]
+        mods = [p for p in SMALL_PRIMES if p < 200] + [9, 15, 21, 25, 27, 33, 35, 49, 91, 121, 4, 6, 8, 16, 1, 0, -7]
+        if not quick:
+            # EVERY modulus -2..SQRT_BOX_TOP, prime or not, heaviest first (all residues of each)
+            mods = sorted(set(mods) | set(range(-2, SQRT_BOX_TOP + 1)), reverse=True)
         for p in mods[sh[1]::sh[2]]:
             for r in range(-2, p + 2):
                 for form in ("I", "i"):
@@ -864,28 +984,262 @@ def int_worker(sh, acc):
             for rr in (0, 1, 2, 3, 4, p - 1, p - 2, p, p + 1, -1):
                 int_case("sqrt_mod", (rr, p), "I", acc)
     elif kind == "jacobi-small":
-        for n in range(-3, 200 if not quick else 100):
-            for a in range(-60, 61):
+        bq = 0 if quick else 1
+        for n in BOX["jacobi-n"][bq]:
+            if (n + 3) % sh[2] != sh[1]:
+                continue
+            for a in BOX["jacobi-a"][bq]:
                 for form in ("I", "i"):
                     int_case("jacobi_symbol", (a, n), form, acc)
-        for _, p in CURVE_PRIMES:
+        for _, p in (CURVE_PRIMES if sh[1] == 0 else ()):
             for i in range(6):
                 a = seeded_int("c14jac%d" % i, p.bit_length() + 8)
                 int_case("jacobi_symbol", (a, p), "I", acc)
                 int_case("jacobi_symbol", (-a, p), "i", acc)
                 int_case("jacobi_symbol", (a, p * 3 * 5), "I", acc)
     elif kind == "inverse-small":
-        for m in range(-3, 80 if not quick else 40):
-            for a in range(-45, 46):
+        bq = 0 if quick else 1
+        for m in BOX["inverse-m"][bq]:
+            if (m + 3) % sh[2] != sh[1]:
+                continue
+            for a in BOX["inverse-a"][bq]:
                 for form in ("I", "i"):
                     int_case("inverse", (a, m), form, acc)
                 int_case("inplace_inverse", (a, m), "I", acc)
-        for w in (WORDS_QUICK if quick else WORDS_FULL):
+        for w in ((WORDS_QUICK if quick else WORDS_FULL + WORDS_BIG) if sh[1] == 0 else ()):
             for m in word_moduli(w, "c14inv"):
                 for a in (2, 3, m - 1, m + 2, -5, seeded_int("c14inva", 64 * w)):
                     int_case("inverse", (a, m), "I", acc)
                     int_case("inplace_inverse", (a, m), "i", acc)
-    else:
+    elif not deep_worker(kind, sh, Vv, acc):
         acc.error("unknown int shard %r" % (sh,))
         return
     acc.sample({"part": "int", "shard": [str(s)[:30] for s in sh]})
+
+
+# ---------------------------------------------------------------------------
+# the dimensions of the thorough tier (complete enumerations, see the constants above)
+# ---------------------------------------------------------------------------
+def _pow_bases(m, label):
+    return [0, 1, 2, 3, -1, -2, 2 ** 64 - 1, 2 ** 64 + 1, m - 1, m - 2, m, m + 1,
+            seeded_int(label, m.bit_length() + 8), -seeded_int(label + "n", m.bit_length())]
+
+
+def _terms(m, label):
+    return [0, 1, 2, m - 1, m - 2, (m + 1) // 2, m, m + 1, -1, seeded_int(label, m.bit_length() + 8)]
+
+
+def _pow_block(m, B, E, acc, tied=()):
+    """pow(b, e, m) for every b of B and e of E (Integer operands); int operands and the in-place form for the
+    exponents of `tied`"""
+    for b in B:
+        for e in E:
+            int_case("pow3", (b, e, m), "I", acc)
+            if e in tied:
+                int_case("pow3", (b, e, m), "i", acc)
+                int_case("ipow3", (b, e, m), "I", acc)
+
+
+def _mmb_block(m, T, acc):
+    for t1 in T:
+        for t2 in T:
+            int_case("_mult_modulo_bytes", (t1, t2, m), "I", acc)
+        int_case("_mult_modulo_bytes", (t1, t1, m), "i", acc)
+
+
+def deep_worker(kind, sh, Vv, acc):
+    if kind == "bits":
+        # EVERY operand bit size k: 2^k-1, 2^k, 2^k+1 and their negatives x every unary operation, byte conversions
+        # around the minimal length and the limb size, shifts and bit tests around k
+        for k in range(1 + sh[1], BITS_TOP + 1, sh[2]):
+            acc.seen("int_dims", ("bits", k))
+            # (the pure-Python Newton iterations of IntegerNative need ~0.1 s per call at 4000 bits: above BITS_SQRT_TOP
+            #  the two square-root operations run at the three sizes around every word boundary only)
+            roots = k <= BITS_SQRT_TOP or (k + 1) % 64 <= 2
+            if roots:
+                acc.seen("int_dims", ("bits-sqrt", k))
+            for x in (2 ** k - 1, 2 ** k, 2 ** k + 1):
+                for a in (x, -x):
+                    for name in UN_OPS:
+                        if roots or a < 0 or name not in ("sqrt", "is_perfect_square"):
+                            int_case(name, (a,), "I", acc)
+                need = (x.bit_length() + 7) // 8
+                limb = 8 * ((need + 7) // 8)
+                for bs in sorted(set((0, need - 1, need, need + 1, limb, limb + 8))):
+                    for bo in ("big", "little"):
+                        int_case("to_bytes", (x, bs, bo), "I", acc)
+                data = x.to_bytes(need, "big")
+                for d in (data, b"\x00" + data, b"\x00" * 8 + data):
+                    for bo in ("big", "little"):
+                        int_case("from_bytes", (d, bo, "bytes"), "I", acc)
+                int_case("from_bytes", (data, "big", "bytearray"), "I", acc)
+                int_case("from_bytes", (data, "little", "memoryview"), "I", acc)
+            for a in (2 ** k - 1, -(2 ** k - 1), 2 ** k, -(2 ** k + 1)):
+                for n in sorted(set((1, 63, 64, 65, k - 1, k, k + 1))):
+                    for name in SHIFT_OPS:
+                        int_case(name, (a, n), "i", acc)
+    elif kind == "bits-bin":
+        # every binary operator on operands of every size against the partner set (both orders, Integer and int right
+        # operands, the operand itself)
+        for k in bits_bin_sizes()[sh[1]::sh[2]]:
+            acc.seen("int_dims", ("bits-bin", k))
+            # a seeded odd value of exactly k bits: unstructured operands of every size (long Euclidean chains in gcd,
+            # inverse, jacobi_symbol)
+            sd = seeded_int("c14bb%d" % k, k) | 1 | (1 << (k - 1))
+            for x in (2 ** k - 1, 2 ** k, 2 ** k + 1):
+                for a in (x, -x):
+                    for b in (1, -65536, 2 ** 32 + 1, -(2 ** 64 - 1), (a >> 1) | 1, sd, -a):
+                        for name in BIN_OPS:
+                            int_case(name, (a, b), "I", acc)
+                            int_case(name, (a, b), "i", acc)
+                            int_case(name, (b, a), "I", acc)
+                    for name in BIN_OPS:
+                        for form in ("I", "i", "A"):
+                            int_case(name, (a, a), form, acc)
+    elif kind == "modbits":
+        # EVERY modulus bit length: pow, _mult_modulo_bytes, inverse
+        for nb in range(2 + sh[1], MODBITS_TOP + 1, sh[2]):
+            acc.seen("int_dims", ("modbits", nb))
+            top = 2 ** nb
+            sd = seeded_int("c14mb%d" % nb, nb) | 1 | (1 << (nb - 1))
+            for m in _dedupe([top - 1, top // 2 + 1, sd, top - 2, top // 2]):
+                B = [0, 1, 2, 3, m - 1, m - 2, m, m + 1, -2, seeded_int("c14mbb%d" % nb, nb + 8)]
+                E = _dedupe([0, 1, 2, 3, 15, 16, 17, 255, 256, 257, 65535, 65536, 65537, 2 ** 64 - 1, 2 ** 64, (m - 1) // 2,
+                             m - 1, m, top + 1, seeded_int("c14mbe%d" % nb, nb), seeded_int("c14mbf%d" % nb, nb + 72)])
+                _pow_block(m, B, E, acc, tied=(3, 65537, m - 1))
+                if m % 2:
+                    _mmb_block(m, _terms(m, "c14mbt%d" % nb), acc)
+                for a in (2, 3, m - 1, m - 2, m + 1, -5, (m + 1) // 2, seeded_int("c14mbi%d" % nb, nb + 8)):
+                    int_case("inverse", (a, m), "I", acc)
+                    int_case("inplace_inverse", (a, m), "i", acc)
+    elif kind == "words-big":
+        # word counts beyond 33 (up to 129 words = 8256 bits): all ten limb patterns
+        w = sh[1]
+        acc.seen("int_dims", ("words-big", w))
+        mods = word_moduli(w) + word_moduli_extra(w)
+        E = [0, 1, 2, 3, 16, 17, 255, 256, 65535, 65536, 65537, 2 ** 32 + 1, 2 ** 64 - 1, 2 ** 64 + 1, -1]
+        for m in mods[sh[2]::sh[3]]:
+            _pow_block(m, _pow_bases(m, "c14wb%d" % w), E, acc, tied=(3, 65537))
+            if m % 2:
+                T = _terms(m, "c14wbt%d" % w)
+                for t1 in T:
+                    for t2 in T[:7]:
+                        int_case("_mult_modulo_bytes", (t1, t2, m), "I", acc)
+            # a full-size exponent (Fermat shaped) on the four principal patterns
+            if m in word_moduli(w)[:4]:
+                for b in (2, seeded_int("c14wbf%d" % w, 64 * w - 3)):
+                    int_case("pow3", (b, m - 1, m), "I", acc)
+    elif kind == "patterns":
+        # the further limb patterns for every word count 1..33: every exponent of V up to 66 bits
+        w = sh[1]
+        E = [v for v in Vv if 0 <= v and v.bit_length() <= 66] + [-1]
+        for m in word_moduli_extra(w):
+            acc.seen("int_dims", ("patterns", w))
+            _pow_block(m, _pow_bases(m, "c14pt%d" % w), E, acc, tied=(3, 65537))
+            if m % 2:
+                _mmb_block(m, _terms(m, "c14ptt%d" % w), acc)
+            for e in (m - 1, (m - 1) // 2, m + 1):
+                for b in (2, m - 2, seeded_int("c14ptf%d" % w, 64 * w + 8)):
+                    int_case("pow3", (b, e, m), "I", acc)
+    elif kind == "exp-sweep":
+        # EVERY exponent 0..4095: all triples of window digits (and all leading-zero-digit shapes)
+        m = exp_sweep_moduli()[sh[1]]
+        acc.seen("int_dims", ("exp-sweep", m))
+        for e in range(EXP_SWEEP_TOP):
+            for b in (2, 3, m - 2, seeded_int("c14esb", m.bit_length() + 8)):
+                int_case("pow3", (b, e, m), "I", acc)
+            if e < 256:
+                int_case("ipow3", (3, e, m), "I", acc)
+                int_case("pow3", (m - 2, e, m), "i", acc)
+    elif kind == "explen":
+        # every (exponent byte length, modulus byte length): the C code pads all operands to the longest one
+        for le in range(1 + sh[1], EXPLEN_TOP + 1, sh[2]):
+            exps = _dedupe([2 ** (8 * le) - 1, 2 ** (8 * le - 1) + 1, 2 ** (8 * le - 8),
+                            seeded_int("c14ele%d" % le, 8 * le) | (1 << (8 * le - 8))])
+            for lm in range(1, EXPLEN_TOP + 1):
+                acc.seen("int_dims", ("explen", (le, lm)))
+                mods = _dedupe([2 ** (8 * lm) - 1, 2 ** (8 * lm - 8) + 2 if lm > 1 else 5,
+                                seeded_int("c14elm%d" % lm, 8 * lm) | 1 | (1 << (8 * lm - 8))])
+                for m in mods:
+                    m |= 1
+                    for e in exps:
+                        for b in (3, m - 2, seeded_int("c14elb", 8 * lm + 8)):
+                            int_case("pow3", (b, e, m), "I", acc)
+    elif kind == "limbs":
+        # single-limb and prefix patterns at EVERY pair of limb positions (carries of the schoolbook product, the
+        # Montgomery reduction two limbs at a time, the final conditional subtraction)
+        w = sh[1]
+        acc.seen("int_dims", ("limbs", w))
+        T = []
+        for i in range(w):
+            T += [1 << (64 * i), (2 ** 63) << (64 * i), (2 ** 64 - 1) << (64 * i), 2 ** (64 * (i + 1)) - 1]
+        for m in word_moduli(w) + word_moduli_extra(w):
+            if m % 2 == 0:
+                continue
+            for t1 in T:
+                for t2 in T:
+                    int_case("_mult_modulo_bytes", (t1, t2, m), "I", acc)
+                for e in (2, 3, 17):
+                    int_case("pow3", (t1, e, m), "I", acc)
+    elif kind == "curve-limbs":
+        # the special reductions (P-256, P-384, P-521, Ed448) and the generic path on the other curve primes: operands
+        # with a single 32-bit limb set / cleared at every position, all ordered pairs
+        name, p = CURVE_PRIMES[sh[1]]
+        acc.seen("int_dims", ("curve-limbs", name))
+        S = [0, 1, 2, p - 1, p - 2, (p - 1) // 2, (p + 1) // 2]
+        for i in range((p.bit_length() + 31) // 32):
+            S += [1 << (32 * i), (1 << (32 * i)) - 1, ((2 ** 32 - 1) << (32 * i)) % p, p - (1 << (32 * i))]
+        S = _dedupe([t for t in S if 0 <= t])
+        for t1 in S:
+            for t2 in S:
+                int_case("_mult_modulo_bytes", (t1, t2, p), "I", acc)
+            for e in (2, 3, (p - 1) // 2, p - 2):
+                int_case("pow3", (t1, e, p), "I", acc)
+            int_case("inverse", (t1, p), "I", acc)
+        for m in (p - 2, p + 2):
+            # the odd neighbours of the special primes: same size, generic reduction
+            _pow_block(m, _pow_bases(m, "c14cl" + name), [0, 1, 2, 3, 16, 17, 65537, 2 ** 64 + 1, (m - 1) // 2, m - 1], acc,
+                       tied=(3, 65537))
+            _mmb_block(m, _terms(m, "c14clt" + name), acc)
+    elif kind == "sqrt-bits":
+        # Tonelli-Shanks on primes of EVERY 2-adicity 1..64 and of every bit size in every residue class mod 8
+        primes = [("2-adicity", s, proth_prime(s)) for s in range(1, TWO_ADICITY_TOP + 1)]
+        for nb in range(3, SQRT_BITS_TOP + 1):
+            for r in (1, 3, 5, 7):
+                p = prime_in_class(nb, r)
+                if p is not None:
+                    primes.append(("bits-class", (nb, r), p))
+        for what, par, p in primes[sh[1]::sh[2]]:
+            acc.seen("int_dims", ("sqrt-" + what, par))
+            rs = [0, 1, 4, p - 1, p - 4, 2, 3]
+            for i in range(3):
+                r = seeded_int("c14sqb%d/%d" % (p.bit_length(), i), p.bit_length() + 8) % p
+                rs += [r, r * r % p, p - r * r % p]
+            for rr in _dedupe(rs):
+                int_case("sqrt_mod", (rr, p), "I", acc)
+                int_case("sqrt_mod", (rr - p, p), "i", acc)
+                if 0 <= rr < p:
+                    int_case("_tonelli_shanks", (rr, p), "I", acc)
+    elif kind == "shift-box":
+        # every shift count and bit index -1..200 on every value of V below 130 bits
+        for a in [v for v in Vv if abs(v) < 2 ** 130][sh[1]::sh[2]]:
+            for n in range(-1, SHIFT_BOX + 1):
+                acc.seen("int_dims", ("shift-box", n))
+                for name in SHIFT_OPS:
+                    int_case(name, (a, n), "i", acc)
+                    if n in (0, 1, 63, 64, 65, 127, 128, 129):
+                        int_case(name, (a, n), "I", acc)
+    elif kind == "conv-sweep":
+        # from_bytes at every length 0..300 (both byte orders; leading / trailing zero bytes)
+        for L in range(0, 301):
+            acc.seen("int_dims", ("conv-sweep", L))
+            for pat in (b"\x00", b"\xff", b"\x01", b"\x80", bytes(range(1, 251))):
+                data = (pat * 301)[:L]
+                for bo in ("big", "little"):
+                    int_case("from_bytes", (data, bo, "bytes"), "I", acc)
+            data = bytes((11 * i + 3) & 255 for i in range(L))
+            int_case("from_bytes", (data, "big", "memoryview"), "I", acc)
+            int_case("from_bytes", (data, "little", "bytearray"), "I", acc)
+    else:
+        return False
+    return True
